@@ -6,6 +6,7 @@ import JenVerif.Tie.FileOpsSrc
 import JenVerif.Tie.WrapSrc
 import JenVerif.Tie.Closed
 import JenVerif.Tie.PreviousSrc
+import JenVerif.Tie.OnCode
 /-
   Tie 1b, all groups: every theorem `Gen.Src.X … = <model>` about the functions translated from
   /repo's Go source on this run (see DESIGN.md §11).  `bin/check.py` builds this module.
